@@ -100,7 +100,11 @@ CHECKS = {
          'causality mode, None exactly when the side condition fails; '
          'init[impl] = form predicate /\\ internal init, refused iff empty; '
          'admitted states meet SysInit and are winning when EnvInit holds; '
-         'verdict true => init synthesis succeeds. Real code compared on '
+         'verdict true => init synthesis succeeds; and for the translated '
+         'Streett(1) construction applied to the translated solver: verdict '
+         'true and a non-empty winning region => the construction succeeds '
+         '(none of its refusals fires; uses C02 non-blocking). The winning '
+         'region is exact by C01/C04 (determinacy). Real code compared on '
          'random games/inits incl. transducer construction success.'),
    note=('Trusted: as C01. The winning region is a parameter of these '
          'theorems (its exactness is C01/C04). No axioms.')),
